@@ -34,7 +34,7 @@ PLANS = {'q12': PLAN_Q12, 't12': PLAN_T12, 'q3': PLAN_Q3, 't3': PLAN_T3}
 
 def spec(tier):
   a, b = ('q12', 'q3') if tier == 'quick' else ('t12', 't3')
-  return [(1, eg.T21 + eg.U, 'all', 'one', a),
+  return [(1, eg.T21 + eg.U, 'allx', 'one', a),
           (2, eg.T21 + eg.U, 'all' if tier == 'thorough' else 'first', 'one', a),
           (3, eg.TTOPO, 'first', 'one', b)]
 
